@@ -4,6 +4,7 @@ import (
 	"fmt"
 	"go/token"
 	"go/types"
+	"sort"
 	"strings"
 
 	"golang.org/x/tools/go/ssa"
@@ -213,6 +214,7 @@ func (x *Exec) callCommonVals(st *State, cc *ssa.CallCommon, fnv Val, args []Val
 			names = append(names, fv.Name())
 			all = append(all, fnv.Bind[k])
 		}
+		x.pendingEsc = []Val{fnv}
 		return x.applyContract(st, con, name, names, all, cc.Signature().Results(), resultNames(fnv.Fn), ins, pos), false
 	case VFunc:
 		name := calleeName(fnv.Fn)
@@ -322,6 +324,8 @@ func (x *Exec) applyContract(st *State, con *Contract, cname string, pnames []st
 	}
 	nowBefore := st.now
 	x.applyHavoc(st, ts, nowBefore, nil)
+	x.escapeHavoc(st, append(append([]Val(nil), args...), x.pendingEsc...), ts)
+	x.pendingEsc = nil
 	n := x.fresh("now", SInt)
 	st.assume(app(">=", n, st.now))
 	st.now = n
@@ -605,4 +609,115 @@ func (x *Exec) noLockHeld(st *State, con *Contract, name string, pos token.Pos) 
 		return
 	}
 	x.emit(st, "ghost", "nolock@"+name, eq(st.G("locks"), "emptyLocks"), []string{"C05", "C18"}, "no gkvlite lock is held while foreign code ("+name+") runs", pos)
+}
+
+// storedFreeVars: the indices of fn's free variables (captured cells) that fn, or a closure made inside
+// fn that captures the same cell, stores to. Captured cells are addressable only through the closure,
+// so this syntactic scan is exact for "which captured cells can a call of the closure change".
+func storedFreeVars(fn *ssa.Function, seen map[*ssa.Function]bool) map[int]bool {
+	out := map[int]bool{}
+	if seen[fn] {
+		return out
+	}
+	seen[fn] = true
+	idx := map[ssa.Value]int{}
+	for k, fv := range fn.FreeVars {
+		idx[fv] = k
+	}
+	for _, b := range fn.Blocks {
+		for _, ins := range b.Instrs {
+			switch i := ins.(type) {
+			case *ssa.Store:
+				if k, ok := idx[i.Addr]; ok {
+					out[k] = true
+				}
+			case *ssa.MakeClosure:
+				inner := i.Fn.(*ssa.Function)
+				st := storedFreeVars(inner, seen)
+				for j, bv := range i.Bindings {
+					if k, ok := idx[bv]; ok && st[j] {
+						out[k] = true
+					}
+				}
+			}
+		}
+	}
+	return out
+}
+
+// escapeHavoc: a closure handed to a callee may be invoked by it any number of times. What such
+// invocations do to the ghost state is part of the callee's contract (through the function-type
+// contract of its parameter); what they do to the cells the closure captured is not visible to the
+// callee at all, so those cells -- exactly the captured cells the closure's code stores to -- are
+// havocked here, at the call site. Any other (non-ghost, non-cell) array the closure's own contract
+// lists in its modifies clause and that the callee does not already havoc as a whole is havocked as
+// a whole (coarse, sound).
+func (x *Exec) escapeHavoc(st *State, args []Val, calleeTs []target) {
+	for _, a := range args {
+		if a.K != VClosure || a.Fn == nil {
+			continue
+		}
+		stored := storedFreeVars(a.Fn, map[*ssa.Function]bool{})
+		var ks []int
+		for k := range stored {
+			ks = append(ks, k)
+		}
+		sort.Ints(ks)
+		for _, k := range ks {
+			if k >= len(a.Bind) {
+				continue
+			}
+			ptr := a.Bind[k]
+			pt, ok := a.Fn.FreeVars[k].Type().Underlying().(*types.Pointer)
+			if !ok || ptr.K != VTerm {
+				continue
+			}
+			elemT := pt.Elem()
+			if isStruct(elemT) {
+				x.storeStruct(st, ptr.T, elemT, x.symbolic(st, elemT, "esc"))
+				continue
+			}
+			if _, isArr := elemT.Underlying().(*types.Array); isArr {
+				st.tainted = "closure stores to a captured array variable"
+				continue
+			}
+			es := sortOf(elemT)
+			name := "cell." + es
+			nv := x.symbolic(st, elemT, "esc")
+			if nv.K != VTerm {
+				st.tainted = "closure stores to a captured composite variable"
+				continue
+			}
+			st.setH(name, es, store(st.H(name, es), ptr.T, nv.T))
+		}
+		con := x.v.cf.Funcs[calleeName(a.Fn)]
+		if con == nil {
+			continue
+		}
+		whole := map[string]bool{}
+		for _, t := range calleeTs {
+			if t.whole {
+				whole[t.array] = true
+			}
+		}
+		for _, s := range con.Modifies {
+			s = strings.TrimSpace(s)
+			if strings.HasPrefix(s, "ghost ") || s == "alloc" || s == "nothing" {
+				continue
+			}
+			s = strings.TrimPrefix(s, "new ")
+			arr, es := x.arrayByName(strings.TrimSpace(s))
+			if arr == "" {
+				// a location-specific target (x.f, content(..)): the array is the declared field's
+				if i := strings.LastIndex(s, "."); i >= 0 {
+					continue // covered by the callee's function-type contract (checked by `govc corr`)
+				}
+				continue
+			}
+			if strings.HasPrefix(arr, "cell.") || whole[arr] {
+				continue
+			}
+			st.havocH(arr, es)
+		}
+	}
 }
